@@ -128,6 +128,9 @@ package keeper
 //@   uses forall ptrs: [int]int, amt: [int][str]int, d: str, n: int, r: int, v: [str]int :: {sumDist(ptrs, store(amt, r, v), d, n)} sumDistFrameAmt(ptrs, amt, d, n, r, v)
 //@   uses forall ptrs: [int]int, amt: [int][str]int, d: str, n: int, pos: int, x: int :: {sumDist(store(ptrs, pos, x), amt, d, n)} sumDistFramePtrs(ptrs, amt, d, n, pos, x)
 //@   uses forall d: str :: {coinsToDistributeDec[d]} wsumBoundOf(coinsToDistributeDec[d], subDistributor.Destinations, len(subDistributor.Destinations.Shares), subDistributor.Destinations.BurnShare)
+//@   // a state that is already in the list is updated in place; the list is re-allocated when a state is appended
+//@   modifies elems(*states)
+//@   ensures [list-identity] arr(*localRemains) == old(arr(*states)) || freshSlice(*localRemains)
 //@   ensures localRemains != nil && off(*localRemains) == 0 && statesHaveAccounts(*localRemains) && len(*localRemains) >= old(len(*states))
 //@   ensures remainsNonNeg(*localRemains)
 //@   ensures payoutOK(*localRemains) && distAllocated(distributions) && off(distributions) == 0
@@ -148,6 +151,7 @@ package keeper
 //@   ensures [burn-reported] burn == nil ==> (forall d: str :: truncInt(coinsToDistributeDec[d] * subDistributor.Destinations.BurnShare) == 0)
 //@   prop C03 C04 C18 C01 C10
 //@ loop Keeper.StartDistributionProcess#1
+//@   invariant arr(*localRemains) == old(arr(*states)) || freshSlice(*localRemains)
 //@   invariant localRemains != nil && off(*localRemains) == 0 && statesHaveAccounts(*localRemains) && len(*localRemains) >= old(len(*states))
 //@   invariant remainsNonNeg(*localRemains)
 //@   invariant payoutOK(*localRemains)
@@ -260,6 +264,7 @@ package keeper
 //@ spec func dpKey() str = global("types.ParamsKey")
 //@ pred storedDistParamsOK(k) = $kvHas[storeOf(k.storeKey)][dpKey()] && distParamsValid(decSnap("types.Params", $kvVal[storeOf(k.storeKey)][dpKey()]))
 //@ func (k Keeper) SetParams(ctx, p) (err)
+//@   panic_requires shareListsBounded(p.SubDistributors)
 //@   modifies $kvHas, $kvVal
 //@   ensures err != nil ==> kvUnchanged()
 //@   ensures err == nil ==> distParamsValid(snap(p)) && $kvHas[storeOf(k.storeKey)][dpKey()] && $kvVal[storeOf(k.storeKey)][dpKey()] == enc(p)
@@ -267,6 +272,7 @@ package keeper
 //@   prop C13 C20
 //@ func (k msgServer) UpdateParams(goCtx, msg) (resp, err)
 //@   requires msg != nil
+//@   panic_requires shareListsBounded(msg.SubDistributors)
 //@   modifies $kvHas, $kvVal
 //@   ensures msg.Authority != k.authority ==> err != nil
 //@   ensures err != nil ==> kvUnchanged()
@@ -275,7 +281,10 @@ package keeper
 //@   prop C13 C20
 //@ func (k msgServer) UpdateSubDistributorParam(goCtx, distributor) (resp, err)
 //@   requires distributor != nil && distributor.SubDistributor != nil
-//@   modifies $kvHas, $kvVal
+//@   panic_requires shareListsBounded($distParams.SubDistributors) && len($distParams.SubDistributors) < 999999999 && len(distributor.SubDistributor.Destinations.Shares) <= 1000000
+//@   // the handler edits the decoded parameter list in place before storing it; in the model GetParams hands out the ghost
+//@   // view's own backing array (in the code: a fresh decode), so the write is declared against that array
+//@   modifies $kvHas, $kvVal, elems($distParams.SubDistributors)
 //@   ensures distributor.Authority != k.authority ==> err != nil
 //@   ensures err != nil ==> kvUnchanged()
 //@   ensures err == nil ==> distributor.Authority == k.authority && storedDistParamsOK(k.Keeper)
@@ -285,7 +294,10 @@ package keeper
 //@   invariant kvUnchanged()
 //@ func (k msgServer) UpdateSubDistributorDestinationShareParam(goCtx, msg) (resp, err)
 //@   requires msg != nil
-//@   modifies $kvHas, $kvVal
+//@   panic_requires shareListsBounded($distParams.SubDistributors)
+//@   // the handler edits the decoded parameter list in place before storing it; in the model GetParams hands out the ghost
+//@   // view's own backing array (in the code: a fresh decode), so the write is declared against that array
+//@   modifies $kvHas, $kvVal, elems($distParams.SubDistributors), heap("types.DestinationShare")
 //@   ensures msg.Authority != k.authority ==> err != nil
 //@   ensures err != nil ==> kvUnchanged()
 //@   ensures err == nil ==> msg.Authority == k.authority && storedDistParamsOK(k.Keeper)
@@ -299,7 +311,10 @@ package keeper
 //@   invariant kvUnchanged()
 //@ func (k msgServer) UpdateSubDistributorBurnShareParam(goCtx, msg) (resp, err)
 //@   requires msg != nil
-//@   modifies $kvHas, $kvVal
+//@   panic_requires shareListsBounded($distParams.SubDistributors)
+//@   // the handler edits the decoded parameter list in place before storing it; in the model GetParams hands out the ghost
+//@   // view's own backing array (in the code: a fresh decode), so the write is declared against that array
+//@   modifies $kvHas, $kvVal, elems($distParams.SubDistributors)
 //@   ensures msg.Authority != k.authority ==> err != nil
 //@   ensures err != nil ==> kvUnchanged()
 //@   ensures err == nil ==> msg.Authority == k.authority && storedDistParamsOK(k.Keeper)
@@ -328,6 +343,7 @@ package keeper
 //@ // exceed the main balance: C03, re-established by BeginBlocker)
 //@ func (k Keeper) GetAllStates(ctx) (list)
 //@   trusted
+//@   ensures freshSlice(list)
 //@   ensures off(list) == 0 && statesHaveAccounts(list) && remainsNonNeg(list) && payoutOK(list)
 //@   ensures forall d: str :: {$bal[MAIN()][d]} unbooked(list, d) >= 0
 //@ spec func sumLog(row [int][str]int, o int, d str, n int) int = n <= 0 ? 0 : sumLog(row, o, d, n - 1) + row[o + n - 1][d]
